@@ -78,6 +78,7 @@ struct Gen {
       if (r.trim) { pol = 1; k = std::max(2, r.tk); }
       if (r.bs64) { if (g.chance(0.75)) { pol = 1; k = (int)g.range(2, 8); } else { pol = g.chance(0.5) ? 0 : 3; k = 4; } }   // the rewritten link is only consistent when its first two audio packets share a page
       long serial; do { serial = (long)g.below(1 << 30) - (g.chance(0.1) ? (1 << 29) : 0); } while (std::find(used.begin(), used.end(), serial) != used.end());
+      if ((prop == "C03" || prop == "C13") && !used.empty() && g.chance(0.05)) serial = used[g.below(used.size())];   // damage: a serial number reused by a later link
       used.push_back(serial);
       lr.set("pol", pol).set("k", k).set("serial", serial);
       if (g.chance(0.06) && (prop == "C10" || prop == "C03" || prop == "C13" || prop == "C09")) lr.set("foreign", 1).set("fserial", serial ^ 0x5a5a5);
@@ -128,6 +129,7 @@ struct Gen {
     else if (prop == "C20") gen_halfrate(seekable);
     else if (prop == "C12" || (prop == "C13" && mode == "iofault")) gen_iofault();
     else if (mode == "damaged") gen_anyops(seekable);
+    else if (prop == "C08" && sr.total > 0 && g.chance(thorough ? 0.5 : 0.2)) gen_targets();
     else gen_seeks(prop == "C08" ? 0.2 : 0.08, prop == "C17" ? 0.8 : 0.25);
     if (prop == "C13" && g.chance(0.3)) { auto ops = p.all("op"); size_t cut = 1 + g.below(ops.size()); size_t n = 0; Plan q; for (auto &r : p.recs) { if (r.type == "op" && n++ >= cut) continue; q.recs.push_back(r); } p = q; }
     if (g.chance(0.25)) op("clear").set("twice", (int64_t)g.below(2));
@@ -145,6 +147,21 @@ struct Gen {
       else seek_op("", true, oor);
       int nr = (int)g.range(0, 3); for (int j = 0; j < nr; j++) read_op(p_int);
       if (g.chance(0.15)) op("tells");
+    }
+  }
+  // C08: every boundary of the stream at hand (link starts/ends, page granule positions, packet boundaries) +-2 is a seek target, for each
+  // seek kind in turn; all of them when that stays under the op cap, an even stride otherwise
+  void gen_targets() {
+    std::vector<int64_t> b = sr.boundaries; b.insert(b.end(), pktb.begin(), pktb.end()); b.push_back(0); b.push_back(sr.total);
+    std::vector<int64_t> t; for (auto x : b) for (int d = -2; d <= 2; d++) { int64_t p = x + d; if (p >= 0 && p <= sr.total) t.push_back(p); }
+    std::sort(t.begin(), t.end()); t.erase(std::unique(t.begin(), t.end()), t.end());
+    size_t cap = thorough ? 2500 : 350; size_t step = t.size() > cap ? (t.size() + cap - 1) / cap : 1; size_t off = step > 1 ? (size_t)g.below(step) : 0;
+    static const char *kinds[] = {"pcm_seek", "pcm_seek_page", "time_seek", "time_seek_page"}; int ki = (int)g.below(4);
+    p.recs[0].set("targets", step == 1 ? "all" : "stride");
+    for (size_t i = off; i < t.size(); i += step) {
+      std::string k = kinds[ki++ & 3]; Rec &r = op(k);
+      if (k[0] == 'p') r.set("a", t[i]); else { int64_t pos = std::min(t[i], std::max<int64_t>(0, sr.total - 1)); r.setf("t", time_of(pos, 0.0)); }
+      if (g.chance(0.6)) op("read_float").set("len", (int64_t)g.range(16, 600)).set("rep", 1);
     }
   }
   void gen_lap() {
